@@ -126,8 +126,23 @@ def emit() -> dict[str, str]:
     r = _func(wire, "_read_request")
     first = [c for h in _guard_around(r, "reader.read_next_batch_with_custom_metadata") if isinstance(h.body[-1], ast.Raise)
              and "RpcError" in _calls(h.body) for c in _names(h)]
-    first_drains = all("_drain_stream" in _calls(h.body) for h in _guard_around(r, "reader.read_next_batch_with_custom_metadata")
-                       if "IPCError" in _names(h)) and "IPCError" in first
+    # what the IPCError handler of the first read does with the rest of the stream: `_drain_stream(reader)`, or an inline
+    # `while True: try: reader.read_next_batch() except <skip>: continue except <end>: break` loop
+    first_drains = False
+    first_skips: list[str] = []
+    first_ends: list[str] = []
+    ipc_h = [h for h in _guard_around(r, "reader.read_next_batch_with_custom_metadata") if "IPCError" in _names(h)]
+    if len(ipc_h) == 1 and "IPCError" in first:
+        h = ipc_h[0]
+        loops = [n for n in h.body if isinstance(n, ast.While) and ast.unparse(n.test) == "True"]
+        if "_drain_stream" in _calls(h.body):
+            first_drains, first_skips, first_ends = True, ["<drain_stream>"], ["<drain_stream>"]
+        elif len(loops) == 1:
+            lt = [t for t in loops[0].body if isinstance(t, ast.Try) and "reader.read_next_batch" in _calls(t.body)]
+            if len(lt) == 1 and len(loops[0].body) == 1:
+                first_skips = [c for hh in lt[0].handlers if isinstance(hh.body[-1], ast.Continue) for c in _names(hh)]
+                first_ends = [c for hh in lt[0].handlers if isinstance(hh.body[-1], (ast.Break, ast.Return)) for c in _names(hh)]
+                first_drains = "StopIteration" in first_ends
     trace = _suppress_around(r, "tp.decode()")
     meth = [c for h in _guard_around(r, "method_name_bytes.decode") if "RpcError" in _calls(h.body) and isinstance(h.body[-1], ast.Raise)
             for c in _names(h)]
@@ -141,13 +156,15 @@ def emit() -> dict[str, str]:
     dt = [t for t in _trys(ds) if "reader.read_next_batch" in _calls(t.body)]
     drain_skips = [c for h in (dt[0].handlers if dt else []) if isinstance(h.body[-1], ast.Continue) for c in _names(h)]
     drain_ends = [c for h in (dt[0].handlers if dt else []) if isinstance(h.body[-1], ast.Return) for c in _names(h)]
+    if first_skips == ["<drain_stream>"]:
+        first_skips, first_ends = list(drain_skips), list(drain_ends)
     # shm.py: resolve_shm_batch no longer asserts on the peer-controlled length key
     shm = ast.parse((REPO / "vgi_rpc/shm.py").read_text())
     rs = _func(shm, "resolve_shm_batch")
     asserts_len = any(isinstance(n, ast.Assert) and "length_bytes" in ast.unparse(n.test) for n in ast.walk(rs))
 
     every = [x for xs in ([c for hs in serve_handlers for c in hs], [c for hs, _ in rr for c in hs], version_gate, validation, method_call,
-                          md_dec, att, first, trace, meth, ptr, rel, aspy, drain_skips, drain_ends) for x in xs]
+                          md_dec, att, first, trace, meth, ptr, rel, aspy, drain_skips, drain_ends, first_skips, first_ends) for x in xs]
     unknown = sorted(set(every) - {lean_name(k) for k in known})
     if unknown:
         raise RuntimeError(f"handler names outside the modelled class list: {unknown}")
@@ -189,7 +206,11 @@ def attachGuard : List Exc := {_lst(att)}
 /-- `_read_request`: classes turned into an RpcError reply around the first read / method-name decode / shm pointer
 resolution / kwargs extraction; classes suppressed around the trace-context decode -/
 def firstRead : List Exc := {_lst(first)}
+/-- the first read's IPCError handler reads the rest of the stream to its EOS before refusing (by `_drain_stream` or an
+inline loop); the classes that loop steps over / that end it -/
 def firstReadDrainsOnIpcError : Bool := {str(bool(first_drains)).lower()}
+def firstReadDrainSkips : List Exc := {_lst(first_skips)}
+def firstReadDrainEnds : List Exc := {_lst(first_ends)}
 def traceDecode : List Exc := {_lst(trace)}
 def methodDecode : List Exc := {_lst(meth)}
 def pointerGuard : List Exc := {_lst(ptr)}
